@@ -34,7 +34,7 @@ func Run(r *mc.Run) {
 	inact.InactivityWait, inact2.InactivityWait, inact2.ExtraChamber = 1, 1, 2
 	only := os.Getenv("VERIF_C07_ONLY") // testing aid: "limits" = the at-the-limit exploration alone
 	if r.Quick() {
-		r.SetBudget(400e9)
+		r.SetBudget(600e9)
 		limits(r, noForced, freq3)
 		if only == "limits" {
 			return
@@ -64,15 +64,17 @@ func Run(r *mc.Run) {
 func limits(r *mc.Run, noForced, freq3 chainx.ParamCfg) {
 	r.Rule += "; AT THE LIMITS: from scripted start states in which senator s1 stands exactly at MaxStakes (60 units) at the start of a staking period - with one delegator (D1, or D2), with two delegators while D1's own delegation slots are full, or one unit below with one delegator - every sequence of <= depth blocks over chainx.MenuLimits (the delegator leaves wholly/partly, another account joins with a fixed amount or with exactly what the pending total leaves up to MaxStakes, both as separate blocks in either order and as one block, for both assignments of D1/D2 and for the plain account P: the three pending-record keys sort P < s1's own record < D2 < D1 in the staking trie, so every evaluation order of joiner, leaver and the validator's own deposit/withdraw/update occurs; validator deposit, withdraw, withdraw of more than its own tokens, stop accepting delegations; equivocation evidence against s1), with StakingTrieFrequency 2 and 3.  On every period-end block an observer classifies, from the period-end receipt, the withdraw queue and the pending records of the ended period, the exit every pending transaction took (counters take_effect:*; a HARNESS-ERROR is printed when a targeted exit is never reached) and checks that a sender whose delegation/deposit failed to activate has exactly its tokens back on its balance (where nothing else moves that balance)"
 	if r.Quick() {
-		chainx.ExploreFrom(r, hooks, noForced, chainx.MenuLimits, []string{"atmax-d1", "atmax-d2", "atmax-full"}, 2)
+		chainx.ExploreFrom(r, hooks, noForced, chainx.MenuLimits, []string{"atmax-d1", "atmax-d2", "atmax-full", "belowmax-d1"}, 2)
 		chainx.ExploreFrom(r, hooks, freq3, chainx.MenuLimits, []string{"atmax-d1/3", "atmax-d2/3"}, 3)
 	} else {
 		menu := append(append([]string{}, chainx.MenuLimits...), chainx.MenuLimitsMore...)
 		chainx.ExploreFrom(r, hooks, noForced, menu, []string{"atmax-d1", "atmax-d2", "atmax-full", "belowmax-d1"}, 3)
 		chainx.ExploreFrom(r, hooks, freq3, menu, []string{"atmax-d1/3", "atmax-d2/3", "atmax-full/3"}, 3)
-		chainx.ExploreFrom(r, hooks, noForced, chainx.MenuLimits, []string{"atmax-d1", "atmax-d2"}, 4)
+		// two whole periods: what was scheduled at the first period end (capped / raised withdrawals) is paid out at the second
+		chainx.ExploreFrom(r, hooks, noForced, chainx.MenuLimits, []string{"atmax-d1"}, 4)
 	}
 	chainx.LimitsVacuity(r)
+	r.Assume("take-effect exits: ValidatorCreate has no reachable failure exit at take-effect time (state.CreateValidator refuses only an existing main address, which admission excludes for the whole period through the pending record; counter take_effect:create_without_validator must stay 0); the delegation-count limits (MaxDelegationForValidator / MaxDelegationForDelegator) are enforced at admission only (existing + pending relationships), there is no take-effect exit for them - the states with full slots are start states (atmax-full) so that the admission refusals next to a full validator are explored; change-status refused at take-effect (stake below MinStakes when a pending 'online' takes effect) moves no tokens and is counted but not targeted")
 }
 
 func Replay(r *mc.Run, v *mc.Violation) { chainx.ReplayHist(r, v, hooks) }
